@@ -83,7 +83,7 @@ func (s *Server) startHTTPServers() error {
 
 	handler := s.buildHandler()
 
-	l, err := net.Listen("tcp", httpAddr)
+	l, err := verifListen("tcp", httpAddr)
 	if err != nil {
 		return err
 	}
@@ -93,7 +93,7 @@ func (s *Server) startHTTPServers() error {
 		Handler: handler,
 	}
 
-	l, err = net.Listen("tcp", httpsAddr)
+	l, err = verifListen("tcp", httpsAddr)
 	if err != nil {
 		return err
 	}
